@@ -335,7 +335,9 @@ fn highest_bit_lessthan_scaled(a: &BigUint, b: &BigUint, scale: u64) -> bool {
     if a_bits < b_bits {
         return true;
     }
-    let log_scale = LOG2_10 * scale as f64;
+    // must be a lower bound of scale*log2(10): the float product is rounded to
+    // nearest and can land on the next integer, so shave off a few ulps first
+    let log_scale = (LOG2_10 * scale as f64) * (1.0 - 4.0 * stdlib::f64::EPSILON);
     match b_bits.checked_add(log_scale as u64) {
         Some(scaled_b_bit) => a_bits < scaled_b_bit,
         None => true, // overflowing u64 means we are definitely bigger
